@@ -153,7 +153,7 @@ PLANS = {
         'level_note': 'trusted: /verif/ref/fa.py incl. ref_union/ref_concat/ref_star (cross-checked against bounded enumeration in selftest)',
     },
     'C19': {
-        'quick': {'rounds': 6, 'wall_cap_s': 240, 'replicas': 4, 'logging_replica': True},
+        'quick': {'rounds': 8, 'wall_cap_s': 300, 'replicas': 4, 'logging_replica': True},
         'thorough': {'rounds': 32, 'wall_cap_s': 3000, 'replicas': 4, 'logging_replica': True},
         'selftest': {'rounds': 1, 'wall_cap_s': 200, 'replicas': 2, 'logging_replica': True},
         'rule': ('a bundle = one session spec (9-14 objects of all six kinds built from seeded specs over a 1-2 letter alphabet, then 36-60 calls drawn uniformly from a registry of ~90 pure operations: '
